@@ -313,8 +313,8 @@ func GridFixture() (*fedlab.Config, *fedlab.Universe) {
 
 // GridOps: 1 is the flat-list control; in 2 the coordinate is also reached through a flat list (collected there as
 // well).  Nested lists below an entity fetch are reached through an object or a flat list only (first / cells / row):
-// an entity fetch whose parent objects sit below a list of lists is never executed by the loader (selectItems
-// flattens one array level; C01 territory, see work/c14_nested_list_entity_fetch.md), such operations would be skipped.
+// operations 16.. put the parents of an entity fetch below a list of lists (the loader used not to execute such a
+// fetch: selectItems flattened one array level, work/c14_nested_list_entity_fetch.md, repaired 3202cc0).
 var GridOps = []string{
 	`{ board { id secret } }`,
 	`{ cells { id secret } }`,
@@ -332,14 +332,27 @@ var GridOps = []string{
 	`{ strict { note secret } }`,
 	`{ cells { near { tags { hidden } near { extra } } } }`,
 	`{ shapes { ... on Cell { secret note } ... on Blob { secret } } strict { id secret } }`,
+	// 16.. the parents of an entity fetch sit BELOW a list of lists (repaired 3202cc0: selectItems flattened one array
+	// level only and the fetch was never executed); 22 is the regression operation of that repair
+	`{ board { tags { name hidden } } }`,
+	`{ board { extra tags { hidden } } cube { id } }`,
+	`{ cube { tags { hidden name } secret } }`,
+	`{ first { secret near { secret note } } }`,
+	`{ board { near { near { secret } tags { hidden } } } }`,
+	`{ shapes { ... on Cell { near { secret extra } } ... on Blob { secret } } strict { id } }`,
+	`{ board { extra tags { name } near { secret } } }`,
 }
 
 // Fixture is a hand-written configuration with its operations and protected sets.
 type Fixture struct {
-	Name  string
-	Build func() (*fedlab.Config, *fedlab.Universe)
-	Ops   []string
-	Ps    [][]string
+	// StrictBaseline: a divergence of the un-authorized gateway run from the monolith is NOT skipped as C01 territory
+	// but reported (clause baseline_agrees): the federation is small and fully supported, so a divergence is a defect
+	// (regression guard for the entity fetch below a list of lists)
+	StrictBaseline bool
+	Name           string
+	Build          func() (*fedlab.Config, *fedlab.Universe)
+	Ops            []string
+	Ps             [][]string
 }
 
 // InterfaceOps probe: protected fields selected only through a fragment on an interface whose
@@ -394,7 +407,7 @@ func Fixtures() []Fixture {
 			{"Profile.psecret", "UserProfile.psecret", "BasicProfile.psecret", "UserProfile.rank"},       // 10
 			{"User.secret", "User.title", "User.email", "User.notes", "Product.title", "Product.secret"}, // 11: fields of deferred fragments
 		}},
-		{Name: "grid", Build: GridFixture, Ops: GridOps, Ps: [][]string{
+		{Name: "grid", StrictBaseline: true, Build: GridFixture, Ops: GridOps, Ps: [][]string{
 			{"Cell.secret"}, // 0: rule on the concrete coordinate only
 			{"Shape.secret", "Cell.secret", "Blob.secret"}, // 1: closed across the interface
 			{"Tag.hidden", "Cell.note"},                    // 2: below a nested list inside an entity-fetched subtree
